@@ -1,4 +1,5 @@
 import NitroVerif.Lemmas.DeterminismConcreteTs
+import NitroVerif.Lemmas.DeterminismConcreteTsUnique
 import NitroVerif.Lemmas.DeterminismConcreteOp
 import NitroVerif.Lemmas.DeterminismConcreteDoc
 import NitroVerif.Lemmas.DeterminismConcreteDecls
@@ -34,13 +35,54 @@ open NitroVerif.Gql
 theorem C17_checkTs_perm {T T' : TsDoc} (h : T.Perm T') (ndt : NoDupTypeNames T) (ndd : NoDupDirectiveNames T) :
     (CheckTs.checkSchema T).Perm (CheckTs.checkSchema T') ∧
     (CheckTs.checkSchema T).isEmpty = (CheckTs.checkSchema T').isEmpty := by
-  have hp : (CheckTs.checkSchema T).Perm (CheckTs.checkSchema T') := by
-    unfold CheckTs.checkSchema
-    rw [checkItem_perm h ndt ndd]
-    exact h.flatMap_right _
+  have hp : (CheckTs.checkSchema T).Perm (CheckTs.checkSchema T') := checkSchema_perm h ndt ndd
   refine ⟨hp, ?_⟩
   rw [Bool.eq_iff_iff, List.isEmpty_iff, List.isEmpty_iff]
   exact ⟨fun e => by rw [e] at hp; exact hp.symm.eq_nil, fun e => by rw [e] at hp; exact hp.eq_nil⟩
+
+/-- **The VERDICT of the type-system checker does not depend on the order of the definitions — no hypothesis on the
+    user's names** (since fix 8cdbacf, `check_unique_names`). For every permutation `T'` of a resolved document `T`:
+    `T` is accepted iff `T'` is. If a type name is defined twice (across kinds, or a user type takes the name of a
+    built-in type) or a directive name is defined twice by the user, BOTH orders are rejected (`DuplicatedName`, at
+    whichever user definition comes later / clashes with the built-in); otherwise all names are distinct and
+    `C17_checkTs_perm` applies. The only hypothesis (`BuiltinsApart`, decidable, invariant under permutation) is about
+    the part of the document the CLI adds: the built-in-position definitions do not repeat a name among themselves,
+    and no user directive definition re-declares a built-in directive — that re-declaration is allowed by the code,
+    and with it the statement is false (`C17_checkTs_redeclared_builtin_counterexample`). -/
+theorem C17_checkTs_verdict {T T' : TsDoc} (h : T.Perm T') (hb : BuiltinsApart T) :
+    CheckTs.checkSchema T = [] ↔ CheckTs.checkSchema T' = [] :=
+  ⟨checkSchema_nil_perm h hb, checkSchema_nil_perm h.symm (hb.perm h)⟩
+
+/-- the hypothesis of `C17_checkTs_verdict` holds of documents with repeated user names (both orders rejected) and
+    with built-in-position definitions -/
+example :
+    let T : TsDoc := [.typeDef { kind := .object, name := "A", namePos := { line := 1 } },
+                      .typeDef { kind := .input, name := "A", namePos := { line := 2 } },
+                      .directiveDef { name := "d", namePos := { line := 3 } },
+                      .directiveDef { name := "d", namePos := { line := 4 } },
+                      .typeDef { kind := .scalar, name := "Int", namePos := { builtin := true } },
+                      .directiveDef { name := "skip", namePos := { builtin := true } }]
+    BuiltinsApart T ∧ CheckTs.checkSchema T ≠ [] ∧ CheckTs.checkSchema T.reverse ≠ [] := by
+  refine ⟨by decide, by decide, by decide⟩
+
+/-- **Re-declared built-in directives: the verdict depends on whether the built-in definition comes first.**
+    `directive @deprecated on OBJECT` (user) next to the built-in `@deprecated on FIELD_DEFINITION | …` and
+    `type Q @deprecated { f: Int }`: `check_unique_names` reports nothing in either order (re-declaring a built-in
+    directive is allowed); with the user's definition first the `Schema` (first definition wins) has the user's and
+    the application at OBJECT is fine, with the built-in first it is `DirectiveLocationNotAllowed`. In the pipeline the
+    built-ins are appended after the user's definitions and the resolver keeps directive definitions in order, so
+    reordering SOURCE text never produces the second order. -/
+theorem C17_checkTs_redeclared_builtin_counterexample :
+    ∃ T T' : TsDoc, T.Perm T' ∧ NoDupTypeNames T ∧ CheckTs.checkUniqueNames T = [] ∧ CheckTs.checkUniqueNames T' = [] ∧
+      CheckTs.checkSchema T = [] ∧ CheckTs.checkSchema T' = [(.DirectiveLocationNotAllowed, { line := 3, col := 8 })] ∧
+      ¬ BuiltinsApart T :=
+  ⟨[.directiveDef { name := "deprecated", namePos := { line := 1 }, locations := ["OBJECT"] },
+    .directiveDef { name := "deprecated", namePos := { builtin := true }, locations := ["FIELD_DEFINITION"] },
+    .typeDef { kind := .object, name := "Q", dirs := [{ name := "deprecated", pos := { line := 3, col := 8 } }] }],
+   [.directiveDef { name := "deprecated", namePos := { builtin := true }, locations := ["FIELD_DEFINITION"] },
+    .directiveDef { name := "deprecated", namePos := { line := 1 }, locations := ["OBJECT"] },
+    .typeDef { kind := .object, name := "Q", dirs := [{ name := "deprecated", pos := { line := 3, col := 8 } }] }],
+   List.Perm.swap _ _ _, by unfold NoDupTypeNames; decide, by decide, by decide, by decide, by decide, by decide⟩
 
 /-- …and the diagnostics of each single definition are literally the same list in both orders (so only the
     interleaving of the per-definition groups changes). -/
@@ -61,44 +103,53 @@ example :
   refine ⟨?_, by unfold NoDupTypeNames; decide, by unfold NoDupDirectiveNames; decide, by decide⟩
   exact (List.Perm.swap _ _ _).trans ((List.Perm.cons _ (List.Perm.swap _ _ _)).trans (List.Perm.swap _ _ _))
 
-/-- **The distinct-names hypothesis is needed (directives).** `resolve_schema_extensions` lets two definitions of the
-    same directive through (`dupOriginal? = none`); the `Schema` the checker consults keeps the FIRST one, so
-    swapping them changes the verdict: `directive @d on SCALAR  directive @d on OBJECT  scalar X @d` is accepted,
-    the same document with the two directive definitions swapped gets `DirectiveLocationNotAllowed`.
-    (The resolver keeps directive definitions in source order, so this IS reachable by reordering source text;
-    replayed on the real CLI: `check` exits 0 for the first order and reports 3:10 "Directive 'd' is not allowed for
-    this location" for the second. Root cause: uniqueness of directive names is not checked anywhere.) -/
-theorem C17_checkTs_duplicate_directive_counterexample :
+/-- **Pre-repair witness (directives), the defect fix 8cdbacf repairs.** `resolve_schema_extensions` lets two
+    definitions of the same directive through (`dupOriginal? = none`); the `Schema` the checker consults keeps the
+    FIRST one, so for the per-definition rules ALONE (`checkSchemaItems` = all that `check_type_system_document` did
+    before the fix) swapping them changes the verdict: `directive @d on SCALAR  directive @d on OBJECT  scalar X @d`
+    passes, the same document with the two directive definitions swapped gets `DirectiveLocationNotAllowed`.
+    (Replayed on the pre-fix CLI: `check` exited 0 for the first order and reported 3:10 "Directive 'd' is not
+    allowed for this location" for the second; seeded/C17/prefix-8cdbacf re-creates it.) With `check_unique_names`
+    BOTH orders are rejected: `DuplicatedName` at the second definition (`C17_checkTs_verdict`). -/
+theorem C17_checkTs_duplicate_directive_prerepair :
     ∃ T T' : TsDoc, T.Perm T' ∧ NoDupTypeNames T ∧ CheckTs.dupOriginal? T = none ∧ CheckTs.dupOriginal? T' = none ∧
-      CheckTs.checkSchema T = [] ∧ CheckTs.checkSchema T' = [(.DirectiveLocationNotAllowed, { line := 3, col := 10 })] :=
-  ⟨[.directiveDef { name := "d", locations := ["SCALAR"], pos := { line := 1 } },
-    .directiveDef { name := "d", locations := ["OBJECT"], pos := { line := 2 } },
+      CheckTs.checkSchemaItems T = [] ∧
+      CheckTs.checkSchemaItems T' = [(.DirectiveLocationNotAllowed, { line := 3, col := 10 })] ∧
+      CheckTs.checkSchema T = [(.DuplicatedName, { line := 2, col := 11 })] ∧
+      CheckTs.checkSchema T' = [(.DuplicatedName, { line := 1, col := 11 }),
+                                (.DirectiveLocationNotAllowed, { line := 3, col := 10 })] :=
+  ⟨[.directiveDef { name := "d", namePos := { line := 1, col := 11 }, locations := ["SCALAR"], pos := { line := 1 } },
+    .directiveDef { name := "d", namePos := { line := 2, col := 11 }, locations := ["OBJECT"], pos := { line := 2 } },
     .typeDef { kind := .scalar, name := "X", dirs := [{ name := "d", pos := { line := 3, col := 10 } }] }],
-   [.directiveDef { name := "d", locations := ["OBJECT"], pos := { line := 2 } },
-    .directiveDef { name := "d", locations := ["SCALAR"], pos := { line := 1 } },
+   [.directiveDef { name := "d", namePos := { line := 2, col := 11 }, locations := ["OBJECT"], pos := { line := 2 } },
+    .directiveDef { name := "d", namePos := { line := 1, col := 11 }, locations := ["SCALAR"], pos := { line := 1 } },
     .typeDef { kind := .scalar, name := "X", dirs := [{ name := "d", pos := { line := 3, col := 10 } }] }],
-   List.Perm.swap _ _ _, by unfold NoDupTypeNames; decide, by decide, by decide, by decide, by decide⟩
+   List.Perm.swap _ _ _, by unfold NoDupTypeNames; decide, by decide, by decide, by decide, by decide, by decide,
+   by decide⟩
 
-/-- **The distinct-names hypothesis is needed (types) — for the checker taken in isolation.** Two definitions of
-    DIFFERENT kinds may share a name after `resolve_schema_extensions` (`dupOriginal?` keys on (kind, name)); the
-    first one wins in the `Schema`: `scalar A  type A { f: B }  scalar B  input I { x: A }` is accepted, with the first
+/-- **Pre-repair witness (types) — for the per-definition rules taken in isolation.** Two definitions of DIFFERENT
+    kinds may share a name after `resolve_schema_extensions` (`dupOriginal?` keys on (kind, name)); the first one wins
+    in the `Schema`: `scalar A  type A { f: B }  scalar B  input I { x: A }` passes `checkSchemaItems`, with the first
     two swapped `I.x` gets `NoOutputType`. (In the pipeline the checker only sees the resolver's output, which lists
-    the definitions grouped by kind — scalars before objects — whatever the source order; so THIS dependence cannot be
-    triggered by reordering source text, unlike the directive one above. Replayed on the real CLI: both orders are
-    accepted.) -/
-theorem C17_checkTs_duplicate_type_counterexample :
+    the definitions grouped by kind — scalars before objects — whatever the source order; so THIS dependence could not
+    be triggered by reordering source text, unlike the directive one above.) With `check_unique_names` both orders are
+    rejected with `DuplicatedName` at the second definition of `A`. -/
+theorem C17_checkTs_duplicate_type_prerepair :
     ∃ T T' : TsDoc, T.Perm T' ∧ NoDupDirectiveNames T ∧ CheckTs.dupOriginal? T = none ∧
       CheckTs.dupOriginal? T' = none ∧
-      CheckTs.checkSchema T = [] ∧ CheckTs.checkSchema T' = [(.NoOutputType, { line := 4, col := 14 })] :=
-  ⟨[.typeDef { kind := .scalar, name := "A" },
-    .typeDef { kind := .object, name := "A", fields := [{ name := "f", ty := .named "B" {} }] },
+      CheckTs.checkSchemaItems T = [] ∧ CheckTs.checkSchemaItems T' = [(.NoOutputType, { line := 4, col := 14 })] ∧
+      CheckTs.checkSchema T = [(.DuplicatedName, { line := 2 })] ∧
+      CheckTs.checkSchema T' = [(.DuplicatedName, { line := 1 }), (.NoOutputType, { line := 4, col := 14 })] :=
+  ⟨[.typeDef { kind := .scalar, name := "A", namePos := { line := 1 } },
+    .typeDef { kind := .object, name := "A", namePos := { line := 2 }, fields := [{ name := "f", ty := .named "B" {} }] },
     .typeDef { kind := .scalar, name := "B" },
     .typeDef { kind := .input, name := "I", inputs := [{ name := "x", ty := .named "A" { line := 4, col := 14 } }] }],
-   [.typeDef { kind := .object, name := "A", fields := [{ name := "f", ty := .named "B" {} }] },
-    .typeDef { kind := .scalar, name := "A" },
+   [.typeDef { kind := .object, name := "A", namePos := { line := 2 }, fields := [{ name := "f", ty := .named "B" {} }] },
+    .typeDef { kind := .scalar, name := "A", namePos := { line := 1 } },
     .typeDef { kind := .scalar, name := "B" },
     .typeDef { kind := .input, name := "I", inputs := [{ name := "x", ty := .named "A" { line := 4, col := 14 } }] }],
-   List.Perm.swap _ _ _, by unfold NoDupDirectiveNames; decide, by decide, by decide, by decide, by decide⟩
+   List.Perm.swap _ _ _, by unfold NoDupDirectiveNames; decide, by decide, by decide, by decide, by decide, by decide,
+   by decide⟩
 
 /-! ## 2. the operation checker: reordering the SCHEMA -/
 
@@ -421,11 +472,21 @@ theorem C17_pipeline_perm (doc doc' out out' : TsDoc) (hp : doc'.Perm doc) (hk :
   exact ⟨(C17_checkTs_perm hperm ndt ndd).1, (C17_checkTs_perm hperm ndt ndd).2,
     fun one D => C17_checkOp_schema_perm hperm ndt ndd one D⟩
 
+/-- **From source order to verdict, no hypothesis on the user's names.** With `doc`, `doc'` as above: if both
+    resolve and the built-in part of the resolved schema is apart (`BuiltinsApart`), the type-system checker accepts
+    both or rejects both. -/
+theorem C17_pipeline_verdict (doc doc' out out' : TsDoc) (hp : doc'.Perm doc) (hk : ExtMerge.KeepsExtOrder doc' doc)
+    (h : ExtResolve.resolve doc = .ok out) (h' : ExtResolve.resolve doc' = .ok out') (hb : BuiltinsApart out) :
+    CheckTs.checkSchema out = [] ↔ CheckTs.checkSchema out' = [] :=
+  C17_checkTs_verdict ((ExtResolve.C11_perm doc doc' hp hk).2 out out' h h').symm hb
+
 /-- the hypotheses are satisfiable: C11's sample (an `extend scalar S @d` BEFORE `scalar S`, a directive definition,
     a second scalar) and its reverse -/
 example : ∃ out out', ExtResolve.resolve ExtResolve.sampleOk = .ok out ∧
     ExtResolve.resolve ExtResolve.sampleOk.reverse = .ok out' ∧ NoDupTypeNames out ∧ NoDupDirectiveNames out ∧
     ExtResolve.sampleOk.reverse.Perm ExtResolve.sampleOk :=
   ⟨_, _, rfl, rfl, by unfold NoDupTypeNames; decide, by unfold NoDupDirectiveNames; decide, List.reverse_perm _⟩
+
+example : ∃ out, ExtResolve.resolve ExtResolve.sampleOk = .ok out ∧ BuiltinsApart out := ⟨_, rfl, by decide⟩
 
 end NitroVerif.Determinism
